@@ -125,6 +125,23 @@ def fromV3SecTable : List (String × String) :=
    ("authorizationCode.tokenUrl", "tokenUrl"), ("password.flow", "=password"), ("password.tokenUrl", "tokenUrl"), ("clientCredentials.flow", "=application"),
    ("clientCredentials.tokenUrl", "tokenUrl")]
 
+/-- what an operation object says beyond its id, parameters and responses (opaque, copy-only) -/
+def opMetaFields : List String := ["summary", "description", "deprecated", "tags"]
+
+/-- pinned: ToV3Operation `&openapi3.Operation{…}` -/
+def toV3OpTable : List (String × String) :=
+  [("operationId", "operationId"), ("summary", "summary"), ("description", "description"), ("deprecated", "deprecated"),
+   ("tags", "tags")]
+
+/-- pinned: FromV3Operation `&openapi2.Operation{…}` -/
+def fromV3OpTable : List (String × String) :=
+  [("operationId", "operationId"), ("summary", "summary"), ("description", "description"), ("deprecated", "deprecated"),
+   ("tags", "tags")]
+
+/-- pinned: the fields of the operation ToV3Operation / FromV3Operation set by statements after the literal -/
+def toV3OpAssigned : List String := ["security", "parameters", "requestBody", "responses"]
+def fromV3OpAssigned : List String := ["security", "parameters", "consumes", "responses"]
+
 /-! ## §2 references -/
 
 /-- the prefix of a `$ref`; `other` carries everything the converter leaves alone -/
@@ -733,6 +750,8 @@ structure Op2 (V : Type) where
   produces : List String
   params : List (PRef2 V)
   responses : List (String × RRef2 V)
+  info : Rec V := []              -- summary, description, deprecated, tags (opaque)
+  security : Option V := none     -- the operation's own security requirements (`security: []` is `some`)
 
 structure Path2 (V : Type) where
   path : String
@@ -748,6 +767,7 @@ structure Doc2 (V : Type) where
   defs : List (String × Sch V)
   secs : List (String × Sec2)
   paths : List (Path2 V)
+  security : Option V := none              -- document-level security requirements (non-empty list)
 
 structure Op3 (V : Type) where
   method : String
@@ -755,6 +775,8 @@ structure Op3 (V : Type) where
   params : List (PRef3 V)
   body : Option (BRef3 V)
   responses : List (String × RRef3 V)
+  info : Rec V := []
+  security : Option V := none
 
 structure Path3 (V : Type) where
   path : String
@@ -774,6 +796,7 @@ structure Doc3 (V : Type) where
   cresponses : List (String × RRef3 V)
   secs : List (String × Sec3)
   paths : List (Path3 V)
+  security : Option V := none
 
 /-- outcome of converting one v2 parameter (ToV3Parameter) -/
 inductive P3 (V : Type) where
@@ -869,7 +892,8 @@ def toV3Op {V : Type} (env : Env3 V) (docConsumes : List String) (op : Op2 V) : 
           body := match bodies with
             | b :: _ => some b
             | [] => if forms.isEmpty then none else some (.val (formBody env consumes (formMap forms))),
-          responses := op.responses.map (fun (k, r) => (k, toV3Resp op.produces r)) }
+          responses := op.responses.map (fun (k, r) => (k, toV3Resp op.produces r)),
+          info := conv toV3OpTable op.info, security := op.security }
 
 def mapRes {α β : Type} (f : α → Res β) : List α → Res (List β)
   | [] => .ok []
@@ -938,7 +962,7 @@ def toV3Raw {V : Type} (d : Doc2 V) : Res (Doc3 V) :=
       .ok { servers := toV3Servers d.loc, cparams := cps, cbodies := cbs,
             cschemas := mergeSchemas cfs d.defs,
             cresponses := d.responses.map (fun (k, r) => (k, toV3Resp d.produces r)),
-            secs := secs, paths := paths }
+            secs := secs, paths := paths, security := d.security }
 
 /-- all schema-position references of a v3 document -/
 def schemaRefs3 {V : Type} (d : Doc3 V) : List (RK × String) :=
@@ -1035,7 +1059,7 @@ def fromV3Op {V : Type} (bin : List String) (op : Op3 V) : Option (Op2 V) :=
            consumes := match op.body with | some (.val b) => sortStrs b.mimes | _ => [],
            produces := [],
            params := ps ++ (match op.body with | none => [] | some b => fromV3Body bin false "body" b),
-           responses := rs }
+           responses := rs, info := conv fromV3OpTable op.info, security := op.security }
   | _, _ => none
 
 def fromV3Path {V : Type} (bin : List String) (p : Path3 V) : Option (Path2 V) :=
@@ -1066,7 +1090,7 @@ def fromV3 {V : Type} (d : Doc3 V) : Option (Doc2 V) :=
       responses := crs,
       defs := (d.cschemas.filter (fun (_, c) => !isBinary c.schema)).filterMap (fun (k, c) => (fromV3SO bin c.schema).map (fun s => (k, s))),
       secs := d.secs.filterMap (fun (k, s) => match fromV3Sec s with | .ok t => some (k, t) | _ => none),
-      paths := paths }
+      paths := paths, security := d.security }
   | _, _, _ => none
 
 /-- findNameForRequestBody: the name of a parameter as FromV3Operation sees it (references are resolved) -/
@@ -1097,6 +1121,8 @@ structure OpA (V : Type) where
   opId : String
   inputs : List (InputA V)
   responses : List (String × RespRA V)
+  info : Rec V                      -- summary, description, deprecated, tags
+  security : Option V               -- the operation's own security requirements
 
 structure Api (V : Type) where
   ops : List (OpA V)
@@ -1106,11 +1132,13 @@ structure Api (V : Type) where
   defs : List (String × ASch V)
   servers : List Server
   security : List (String × SecA)
+  securityReq : Option V            -- document-level security requirements
 
 /-- what a v2 operation says -/
 def opA2 {V : Type} (path : String) (o : Op2 V) : OpA V :=
   { path := path, method := o.method, opId := o.opId, inputs := o.params.map inputA2,
-    responses := o.responses.map (fun kr => (kr.1, respA2 kr.2)) }
+    responses := o.responses.map (fun kr => (kr.1, respA2 kr.2)),
+    info := normRec opMetaFields o.info, security := o.security }
 
 def api2 {V : Type} (d : Doc2 V) : Api V :=
   { ops := d.paths.flatMap (fun p => p.ops.map (opA2 p.path)),
@@ -1119,17 +1147,22 @@ def api2 {V : Type} (d : Doc2 V) : Api V :=
     sharedResponses := d.responses.map (fun (k, r) => (k, respA2 r)),
     defs := d.defs.map (fun (k, s) => (k, abs2S s)),
     servers := serversA2 d.loc,
-    security := d.secs.map (fun (k, s) => (k, secA2 s)) }
+    security := d.secs.map (fun (k, s) => (k, secA2 s)),
+    securityReq := d.security }
 
 /-- a shared form parameter encoded as a component schema -/
 def sharedForm3 {V : Type} (name : String) (c : CSchema V) : InputA V :=
   .form name (propRequired name c.schema) (abs3S (clearReq c.schema))
 
+/-- what a v3 operation says -/
+def opA3 {V : Type} (path : String) (o : Op3 V) : OpA V :=
+  { path := path, method := o.method, opId := o.opId,
+    inputs := o.params.map paramA3 ++ (match o.body with | none => [] | some b => bodyA3 b),
+    responses := o.responses.map (fun kr => (kr.1, respA3 kr.2)),
+    info := normRec opMetaFields o.info, security := o.security }
+
 def api3 {V : Type} (d : Doc3 V) : Api V :=
-  { ops := d.paths.flatMap (fun p => p.ops.map (fun o =>
-      { path := p.path, method := o.method, opId := o.opId,
-        inputs := o.params.map paramA3 ++ (match o.body with | none => [] | some b => bodyA3 b),
-        responses := o.responses.map (fun (k, r) => (k, respA3 r)) })),
+  { ops := d.paths.flatMap (fun p => p.ops.map (opA3 p.path)),
     pathParams := (d.paths.filter (fun p => !p.params.isEmpty)).map (fun p => (p.path, p.params.map paramA3)),
     shared := d.cparams.map (fun (k, p) => (k, paramA3 p)) ++
               d.cbodies.flatMap (fun (k, b) => (bodyA3 b).map (fun i => (k, i))) ++
@@ -1137,7 +1170,8 @@ def api3 {V : Type} (d : Doc3 V) : Api V :=
     sharedResponses := d.cresponses.map (fun (k, r) => (k, respA3 r)),
     defs := d.cschemas.filterMap (fun (k, c) => match c.formName with | none => some (k, abs3S c.schema) | some _ => none),
     servers := d.servers,
-    security := d.secs.map (fun (k, s) => (k, secA3 s)) }
+    security := d.secs.map (fun (k, s) => (k, secA3 s)),
+    securityReq := d.security }
 
 /-! ## §7 fragment and exclusion predicates used by the theorems -/
 
@@ -1200,7 +1234,8 @@ def toV3PS {V : Type} : PRef2 V → PRef3 V
 /-- the v3 operation ToV3Operation builds in the simple fragment -/
 def toV3OpS {V : Type} (o : Op2 V) : Op3 V :=
   { method := o.method, opId := o.opId, params := o.params.map toV3PS, body := none,
-    responses := o.responses.map (fun kr => (kr.1, toV3Resp o.produces kr.2)) }
+    responses := o.responses.map (fun kr => (kr.1, toV3Resp o.produces kr.2)),
+    info := conv toV3OpTable o.info, security := o.security }
 
 def toV3PathS {V : Type} (p : Path2 V) : Path3 V :=
   { path := p.path, params := p.params.map toV3PS, ops := p.ops.map toV3OpS }
